@@ -219,6 +219,19 @@ impl Channel {
             let dur = metrics.calculate_duration(&msg, rng_ref);
             let busy = metrics.calculate_busy(&msg);
 
+            // The message leaves the channel before a queued successor may start its
+            // transmission. Keep that order also for events of the same instant (no latency),
+            // else a successor that needs no measurable time overtakes this message.
+            let next_event_time = SimTime::now() + dur;
+
+            sink.add(
+                NetEvents::MessageExitingConnection(MessageExitingConnection {
+                    con: via.clone(),
+                    msg,
+                }),
+                next_event_time,
+            );
+
             if busy != Duration::ZERO {
                 let transmissin_finish = SimTime::now() + busy;
 
@@ -233,16 +246,6 @@ impl Channel {
                 );
             }
 
-            let next_event_time = SimTime::now() + dur;
-
-            sink.add(
-                NetEvents::MessageExitingConnection(MessageExitingConnection {
-                    con: via.clone(),
-                    msg,
-                }),
-                next_event_time,
-            );
-
             // must break iteration,
             // but not perform on-module handling
         }
@@ -255,10 +258,18 @@ impl Channel {
         chan.busy = false;
         chan.transmission_finish_time = SimTime::ZERO;
 
-        if let Some((msg, mut next_gate)) = chan.buffer.dequeue() {
+        // A message whose transmission takes no measurable time (very high bitrates) does not
+        // occupy the channel and schedules no further notification: keep draining the queue
+        // until a transmission does, or packets behind it would wait forever on an idle channel.
+        while let Some((msg, mut next_gate)) = chan.buffer.dequeue() {
             drop(chan);
             next_gate.channel = Some(self.clone());
-            self.send_message(msg, next_gate, sink);
+            self.clone().send_message(msg, next_gate, sink);
+
+            chan = self.inner.write().unwrap();
+            if chan.busy {
+                break;
+            }
         }
     }
 }
